@@ -39,7 +39,7 @@ def main():
     res = {"repo_head": subprocess.check_output(["git", "-C", "/repo", "rev-parse", "--short", "HEAD"], text=True).strip()}
     try:
         shutil.copytree(seed, os.path.join(W, "SEED"))
-        demo = meta["demo_cmd"].replace("/tmp/seed-%s" % pid, W)
+        demo = meta["demo_cmd"].replace("/tmp/seed2-%s" % pid, W).replace("/tmp/seed-%s" % pid, W)
         rc, out = sh(demo, W)
         res["demo_without_patch"] = verdict(out)
         print("demo without patch:", res["demo_without_patch"])
